@@ -372,3 +372,55 @@ Proof.
   intros H. assert (C : m = 1 \/ m = 2 \/ m = 3 \/ m = 4 \/ m = 5 \/ m = 6 \/ m = 7 \/ m = 8 \/ m = 9 \/ m = 10 \/ m = 11 \/ m = 12) by lia.
   destruct C as [->|[->|[->|[->|[->|[->|[->|[->|[->|[->|[->| ->]]]]]]]]]]]; vm_compute; split; reflexivity.
 Qed.
+
+(* ---- C19: the ISO 8601 formatter against the default display ---- *)
+Lemma render_token_num e off y mm dd hh mi s ns it sep wd : weekday e = Some wd -> 0 <= TextFmt.token it <= 10 ->
+  render_token e off (Some (y, mm, dd, hh, mi, s, ns)) it sep =
+    if TextFmt.token it =? 0 then ROk (sep ++ fmt_int 4 y)
+    else if TextFmt.token it =? 1 then ROk (sep ++ fmt_int 2 y)
+    else if TextFmt.token it =? 2 then ROk (sep ++ fmt_int 2 mm)
+    else if TextFmt.token it =? 3 then ROk (sep ++ fmt_int 2 dd)
+    else if TextFmt.token it =? 4 then ROk (sep ++ fmt_int 2 hh)
+    else if TextFmt.token it =? 5 then ROk (sep ++ fmt_int 2 mi)
+    else if TextFmt.token it =? 6 then ROk (sep ++ fmt_int 2 s)
+    else if TextFmt.token it =? 7 then (if negb (optional it) || (0 <? ns) then ROk (sep ++ fmt_int 9 ns) else ROk [])
+    else if TextFmt.token it =? 8 then ROk (sep ++ render_offset off)
+    else if TextFmt.token it =? 9 then RFmtError
+    else if TextFmt.token it =? 10 then (if negb (optional it) || negb (ts_eqb (scale e) UTC) then ROk (sep ++ ts_name (scale e)) else ROk [])
+    else RUnreachable.
+Proof.
+  intros W R. unfold render_token. rewrite W.
+  unfold TextFmt.T_Year, TextFmt.T_YearShort, TextFmt.T_Month, TextFmt.T_Day, TextFmt.T_Hour, TextFmt.T_Minute, TextFmt.T_Second,
+         TextFmt.T_Subsecond, TextFmt.T_OffsetHours, TextFmt.T_OffsetMinutes, TextFmt.T_Timescale.
+  set (t := TextFmt.token it) in *.
+  destruct (t =? 0) eqn:E0; [reflexivity|]. destruct (t =? 1) eqn:E1; [reflexivity|].
+  destruct (t =? 2) eqn:E2; [reflexivity|]. destruct (t =? 3) eqn:E3; [reflexivity|]. destruct (t =? 4) eqn:E4; [reflexivity|].
+  destruct (t =? 5) eqn:E5; [reflexivity|]. destruct (t =? 6) eqn:E6; [reflexivity|]. destruct (t =? 7) eqn:E7; [reflexivity|].
+  destruct (t =? 8) eqn:E8; [reflexivity|]. destruct (t =? 9) eqn:E9; [reflexivity|]. destruct (t =? 10) eqn:E10; [reflexivity|lia].
+Qed.
+Lemma iso8601_items : predefined_by_index 0 =
+  [mkItem 0 (Some 45) None false; mkItem 2 (Some 45) None false; mkItem 3 (Some 84) None false; mkItem 4 (Some 58) None false;
+   mkItem 5 (Some 58) None false; mkItem 6 (Some 46) None false; mkItem 7 (Some 32) None false; mkItem 10 None None false].
+Proof. vm_compute. reflexivity. Qed.
+(* whenever the sub-second part is non-zero the ISO 8601 formatter prints exactly what Display prints *)
+Lemma iso8601_is_display_when_subsecond e : weekday e <> None -> nanos_of (compute_gregorian (dur e) (scale e)) <> 0 ->
+  formatter_new e (predefined_by_index 0) = ROk (display_epoch e).
+Proof.
+  intros W N. unfold formatter_new, formatter_render, display_epoch, gregorian_str.
+  assert (NG : need_gregorian (predefined_by_index 0) = true) by (vm_compute; reflexivity). rewrite NG.
+  rewrite iso8601_items.
+  destruct (compute_gregorian (dur e) (scale e)) as [[[[[[y mm] dd] hh] mi] s] ns] eqn:G.
+  cbn [nanos_of] in *.
+  destruct (weekday e) as [wd|] eqn:WD; [|contradiction].
+  assert (Z0 : (ns =? 0) = false) by lia.
+  unfold render_fields. rewrite Z0. cbn [negb].
+  cbn [render_items]. rewrite !(render_token_num e _ _ _ _ _ _ _ _ _ _ wd WD) by (cbn [TextFmt.token]; lia).
+  cbn [TextFmt.token optional Z.eqb Pos.eqb negb orb write_sep sep_char second_sep_char rbind app].
+  f_equal. rewrite ?app_nil_r. repeat (rewrite <- !app_assoc; cbn [app]). reflexivity.
+Qed.
+(* known finding C19 iso8601-vs-display-whole-seconds: for whole seconds the formatter prints .000000000 (its documented
+   %f is not optional) and Display omits the fraction; witness 1900-01-01T00:00:00 TAI *)
+Lemma iso8601_display_whole_second_witness :
+  exists e, weekday e <> None /\ nanos_of (compute_gregorian (dur e) (scale e)) = 0 /\
+            formatter_new e (predefined_by_index 0) <> ROk (display_epoch e).
+Proof. exists (mkE (mkD 0 0) TAI). repeat split; vm_compute; discriminate. Qed.
